@@ -14,6 +14,8 @@ def _pol(p):
         return -1
     if p == "ROUND_ROBIN":
         return -2
+    if p == "RANDOM":
+        return -4            # RND: every choice is a behaviour of the model
     if isinstance(p, int):
         return p
     if isinstance(p, dict) and "script" in p:
@@ -32,6 +34,10 @@ def supported(c):
         for k in ("policy_in", "policy_out"):
             if k in n and _pol(n[k]) is None:
                 return False
+    # RANDOM on both sides of a node with two sources behind it: 2^(items) choice sequences times all interleavings do not
+    # finish; those configurations stay with trace validation (leg C)
+    if sum(1 for n in c["nodes"] for k in ("policy_in", "policy_out") if n.get(k) == "RANDOM") >= 2:
+        return False
     for e in c["edges"]:
         if e["type"] not in ("buffer", "fleet", "slotted") or isinstance(e.get("delay", 0), list):
             return False
@@ -226,10 +232,18 @@ def conformance(tier):
     checked = matched = 0
     inst_checked = inst_matched = 0
     drift = []
+    import json as _json, random as _random
+    jobs = []
     for c in C:
         if c["name"] not in allowed:
             continue
+        # a RANDOM policy: whatever the seeded generator picks must be one of the model's behaviours -- several seeds
+        rseeds = [11, 12, 13, 14] if '"RANDOM"' in _json.dumps(c["nodes"]) else [None]
+        jobs += [(c, rs) for rs in rseeds]
+    for c, rs in jobs:
         c2 = dict(c, T=MAXT + 0.5)
+        if rs is not None:
+            _random.seed(rs)
         tr = factory_driver.run_config(c2)
         if tr["outcome"] != "ok":
             drift.append({"config": c["name"], "family": c["family"], "real": tr["outcome"] + " " + tr.get("err", ""), "model": allowed[c["name"]][:3]})
